@@ -67,10 +67,10 @@ def gen_shapes(ck, thorough):
         for b in KINDS:
             shapes.append(mk([a, b], rng.choice([1, 2, 3]), NETWORKS[n % len(NETWORKS)]))
             n += 1
-    for _ in range(1500 if thorough else 150):            # triples and quadruples
+    for _ in range(600 if thorough else 150):            # triples and quadruples
         shapes.append(mk([rng.choice(KINDS) for _ in range(rng.choice([3, 3, 4]))], rng.choice([1, 2, 3]), NETWORKS[n % len(NETWORKS)]))
         n += 1
-    for nout in (252, 253) + ((254, 300) if thorough else ()):      # output counts across the CompactSize boundary
+    for nout in (252, 253) + ((254,) if thorough else ()):      # output counts across the CompactSize boundary
         for k in ('p2pkh', 'p2wpkh', 'p2sh-multisig'):
             shapes.append(mk([k, rng.choice(KINDS)], nout, NETWORKS[n % len(NETWORKS)]))
             n += 1
